@@ -42,8 +42,8 @@ func (c *collector) addPart(partIndex int, data []byte) error {
 	} else {
 		offset = len(data) * partIndex
 	}
-	if offset >= len(c.buf) {
-		return errors.Errorf("invalid offset len=%d for buf of len=%d", offset, len(c.buf))
+	if offset < 0 || offset+len(data) > len(c.buf) {
+		return errors.Errorf("part at offset=%d len=%d does not fit in message of len=%d", offset, len(data), len(c.buf))
 	}
 	copy(c.buf[offset:], data)
 	c.bitMap.set(partIndex, true)
